@@ -73,6 +73,19 @@ def definition(name, at):
             if reads & between or reads & blocked or name in reads:
                 return None
             return s.value
+        if isinstance(s, ast.Assign) and len(s.targets) == 1 and isinstance(s.targets[0], (ast.Tuple, ast.List)) \
+                and all(isinstance(t, ast.Name) for t in s.targets[0].elts) and name in [t.id for t in s.targets[0].elts]:
+            # a, b = E: the k-th component of E
+            reads = {x.id for x in ast.walk(s.value) if isinstance(x, ast.Name)}
+            names = [t.id for t in s.targets[0].elts]
+            if reads & between or reads & blocked or reads & set(names) or names.count(name) != 1:
+                return None
+            k = names.index(name)
+            if isinstance(s.value, (ast.Tuple, ast.List)) and len(s.value.elts) == len(names) \
+                    and not any(isinstance(e, ast.Starred) for e in s.value.elts):
+                return s.value.elts[k]
+            sub = ast.Subscript(value=s.value, slice=ast.Constant(k), ctx=ast.Load())
+            return ast.copy_location(ast.fix_missing_locations(ast.copy_location(sub, s.value)), s.value)
         b = bound_names(s)
         if name in b:
             return None
